@@ -440,7 +440,8 @@ def run_family(rep, insts, cases, configs, workdir, model_exe, shard_by_type=Tru
         exes = {}
         for (t, cfg), (exe, log) in zip(jobmeta, built):
             if exe is None:
-                build_fail.append((t, cfg, log))
+                if not log.startswith("COMPILER-CRASH"):
+                    build_fail.append((t, cfg, log))
             exes[(t, cfg)] = exe
         for t, cs in sorted(by_t.items()):
             cf = os.path.join(workdir, "cases-%s-%d.txt" % (cls, t))
